@@ -150,6 +150,19 @@ def startBg (env : Env) (enabled apiDrained : Bool) (live : List Thread) (t : Ti
       let (bs, ths, c) := startBg env enabled apiDrained live t rest cnt
       ({ b with running := if bgRunningDone live b then none else b.running } :: bs, ths, c)
 
+/-- was a due background coroutine refused because the scheduler in-queue was full? -/
+def bgRefused (env : Env) (enabled apiDrained : Bool) (live : List Thread) (t : Time) : List BgState → Nat → Bool
+  | [], _ => false
+  | b :: rest, cnt =>
+    if enabled && !apiDrained && (t - b.last) ≥ env.cfg.signalTimeout && bgRunningDone live b then
+      if cnt < env.cfg.coroutineMaxSize then bgRefused env enabled apiDrained live t rest (cnt + 1) else true
+    else bgRefused env enabled apiDrained live t rest cnt
+
+/-- when a background coroutine was refused, the registry is rotated by one so that another one goes first next tick -/
+def rotate1 {α} : List α → List α
+  | [] => []
+  | x :: xs => xs ++ [x]
+
 /-- dequeued API submissions become coroutines while the scheduler in-queue has room -/
 def startReqs (env : Env) (t : Time) : List (String × Req) → Nat → List Thread × List Event
   | [], _ => ([], [])
@@ -186,7 +199,8 @@ def Sys.tick (s : Sys) (t : Time) : Sys × List Event :=
   let candidates := threads1.map (fun th => match th.resume? t with | some th' => (th', true) | none => (th, false))
       ++ (newBg ++ newReq).map (fun th => (th, true))
   let (threads2, events, disp, halted) := runAll t candidates
-  ({ s with threads := threads2, apiQ := s.apiQ.drop nDeq, cq := cq', bg := bg', pending := s.pending ++ disp, halted := halted },
+  let bg'' := if bgRefused s.env s.bgEnabled (s.apiDone && s.apiQ.isEmpty) threads1 t s.bg 0 then rotate1 bg' else bg'
+  ({ s with threads := threads2, apiQ := s.apiQ.drop nDeq, cq := cq', bg := bg'', pending := s.pending ++ disp, halted := halted },
    rejected ++ events)
 
 /-- one store batch (`store.Process` on the listed submissions, with injected failures) -/
